@@ -45,6 +45,9 @@ import (
 // wrapped error: GoLite.wrapf). A local bound to the result of a dropped call
 // (`lg := log.GetLogger(ctx)`) is a logger under whatever name: binding and calls on it are dropped.
 type g2lTarget struct {
+	// recvName: the name this configuration uses for the RECEIVER (in params, callSubst keys, subst keys). The
+	// translator renames the receiver of the Go method to it, so renaming the receiver in the source is harmless
+	recvName       string
 	file, recv, fn string
 	leanName       string            // name of the Lean definition
 	params         string            // Lean binders
@@ -1784,6 +1787,17 @@ func g2lPointerPrePass(g *g2l, body []ast.Stmt) map[string]bool {
 func g2lTranslate(t *g2lTarget) string {
 	f := parseFile(t.file)
 	fd := mustFunc(f, t.file, t.recv, t.fn)
+	if t.recvName != "" && fd.Recv != nil && len(fd.Recv.List) == 1 && len(fd.Recv.List[0].Names) == 1 {
+		if rid := fd.Recv.List[0].Names[0]; rid.Name != t.recvName && rid.Obj != nil {
+			obj := rid.Obj
+			ast.Inspect(fd, func(n ast.Node) bool {
+				if id, ok := n.(*ast.Ident); ok && id.Obj == obj {
+					id.Name = t.recvName
+				}
+				return true
+			})
+		}
+	}
 	g := &g2l{t: t, opt: map[string]bool{}, pkgs: map[string]bool{}, owned: map[string]bool{}, declared: map[string]bool{}, shared: map[string]bool{}, valueRoots: map[string]bool{}}
 	for _, im := range f.Imports {
 		p, _ := strconv.Unquote(im.Path.Value)
